@@ -84,7 +84,7 @@ def check_type(value: Any, attr_type: Type) -> bool:
                         if not check_type(item, attr_type.__args__[i]):
                             return False
             elif attr_type.__origin__ == type:
-                if not issubclass(value, attr_type.__args__[0]):
+                if not _is_subclass_of_type(value, attr_type.__args__[0]):
                     return False
 
             return True
@@ -94,6 +94,23 @@ def check_type(value: Any, attr_type: Type) -> bool:
         )  # pragma: no cover; This is here as a fallback currently, just in case!
 
     return isinstance(value, attr_type)
+
+
+def _is_subclass_of_type(cls: type, attr_type: Type) -> bool:
+    """
+    Check whether the class `cls` is acceptable for `Type[attr_type]`, where
+    `attr_type` may itself be `Any`, a type variable, a union or a subscripted
+    generic (none of which `issubclass` handles as required here).
+    """
+    if attr_type is Any or isinstance(attr_type, TypeVar):
+        return True
+    if sys.version_info >= (3, 10) and isinstance(attr_type, types.UnionType):
+        return any(_is_subclass_of_type(cls, type_) for type_ in attr_type.__args__)
+    if getattr(attr_type, "__origin__", None) is Union:
+        return any(_is_subclass_of_type(cls, type_) for type_ in attr_type.__args__)
+    while hasattr(attr_type, "__origin__"):
+        attr_type = attr_type.__origin__
+    return isinstance(attr_type, type) and issubclass(cls, attr_type)
 
 
 def get_collection_item_type(container_type: Type) -> Type:
